@@ -9,7 +9,8 @@ import common as C
 from props import qtycommon as Q, c05
 
 ID = "C09"
-COQ_TARGETS = ["Properties/C09.vo"]
+COQ_TARGETS = ["Properties/C09.vo", "GenFacts/ResolutionFacts.vo"]
+EXTRA_OBLIGATIONS = ["resolution_facts_true"]
 MODEL_TARGETS = ["Model/Cmp.vo"]
 OPS = ["<", "<=", "==", "!=", ">", ">="]
 QC = {"<": "QLt", "<=": "QLe", "==": "QEq", "!=": "QNe", ">": "QGt", ">=": "QGe"}
@@ -29,12 +30,17 @@ def pool(units):
     floats = [("flt", "0.5", Fraction(1, 2)), ("flt", "2.5", Fraction(5, 2)), ("flt", "0.1", Fraction(0.1)), ("flt", "6.0", Fraction(6)),
               ("flt", "1e-7", None), ("flt", "(0.1+0.2)", Fraction(0.1 + 0.2)), ("flt", "0.3", Fraction(0.3))]
     lazy = [("lazy", "3!", ("fact", 3)), ("lazy", "(4!/2!)", ("div", ("fact", 4), ("fact", 2))), ("lazy", "C(5,2)", ("choose", 5, 2)),
-            ("lazy", "0!", ("fact", 0)), ("lazy", "(4!)", ("fact", 4)), ("lazy", "(3!/4!)", ("div", ("fact", 3), ("fact", 4)))]
+            ("lazy", "0!", ("fact", 0)), ("lazy", "(4!)", ("fact", 4)), ("lazy", "(3!/4!)", ("div", ("fact", 3), ("fact", 4))),
+            # numerically equal values built in different ways
+            ("lazy", "C(4,2)", ("choose", 4, 2)), ("lazy", "(4!/4)", ("div", ("fact", 4), ("int", 4))), ("lazy", "(C(4,1)*3!)", ("mul", ("choose", 4, 1), ("fact", 3)))]
     dimless = [("qty", "(5 rad)", T(L(5), "rad")), ("qty", "(1 dozen)", T(L(1), "dozen")), ("qty", "((1/2) dozen)", T(F(1, 2), "dozen")),
                ("qty", "(12 rad)", T(L(12), "rad"))]
     length = [("qty", "(1 m)", T(L(1), "m")), ("qty", "(100 cm)", T(L(100), "cm")), ("qty", "(1 km)", T(L(1), "km")),
               ("qty", "(1000 metres)", T(L(1000), "metres")), ("qty", "(999 m)", T(L(999), "m")), ("qty", "((1/2) km)", T(F(1, 2), "km")),
-              ("qty", "(1 sm)", T(L(1), "sm")), ("qty", "(1852 m)", T(L(1852), "m"))]
+              ("qty", "(1 sm)", T(L(1), "sm")), ("qty", "(1852 m)", T(L(1852), "m")),
+              # float magnitudes: the float's exact binary value decides (0.07 is slightly above 7/100)
+              ("qtyf", "(7 cm)", Fraction(7, 100)), ("qtyf", "(0.07 m)", Fraction(0.07)), ("qtyf", "(0.3 m)", Fraction(0.3)),
+              ("qtyf", "(0.1 m + 0.2 m)", Fraction(0.1 + 0.2)), ("qtyf", "(30 cm)", Fraction(3, 10))]
     time_ = [("qty", "(60 s)", T(L(60), "s")), ("qty", "(1 min)", T(L(1), "min")), ("qty", "(1 h)", T(L(1), "h")),
              ("qty", "(3600 seconds)", T(L(3600), "seconds")), ("qty", "(59 s)", T(L(59), "s"))]
     inst = [("inst", "#2024-01-01#", datetime(2024, 1, 1)), ("inst", "#2024-01-01T00:00:00#", datetime(2024, 1, 1)),
@@ -50,7 +56,7 @@ def impl_case(text):
 def exact_value(item, units):
     """independent exact value of a pool item (Fraction), or None"""
     kind, text, rep = item
-    if kind == "flt":
+    if kind in ("flt", "qtyf"):
         return rep
     if kind == "lazy":
         return c05.eager(rep)
